@@ -358,7 +358,7 @@ fn remove_mapping(state: &mut State, i: usize, removed_key: KeyCode) -> (res: Ve
     apply(held(*old(state)), res@) == Some(held(*final(state))),
     //@  | frame / auxiliary
     final(state).active_mappings@ == old(state).active_mappings@.remove(i as int),
-    //@ C01 C02 C09 | effect of the call on the list of keys considered pressed
+    //@ C01 C02 | effect of the call on the list of keys considered pressed
     final(state).input_pressed_keys@ == old(state).input_pressed_keys@,
     //@  | frame / auxiliary
     final(state).mapped_absorbed_keys@ == old(state).mapped_absorbed_keys@,
@@ -369,7 +369,7 @@ fn remove_mapping(state: &mut State, i: usize, removed_key: KeyCode) -> (res: Ve
     all_released(res@),
     //@  | frame / auxiliary
     forall|k: KeyCode| #[trigger] final(state).mapped_output_keys@.contains(k) ==> old(state).mapped_output_keys@.contains(k) && used_by_other(old(state).active_mappings@, i as int, k),
-    //@ C01 C02 C09 | effect of the call on the list of keys considered pressed
+    //@ C01 C02 | effect of the call on the list of keys considered pressed
     forall|k: KeyCode| #[trigger] final(state).pass_through_keys@.contains(k) ==> old(state).pass_through_keys@.contains(k) || (old(state).input_pressed_keys@.contains(k) && old(state).mapped_output_keys@.contains(k)),
     //@ C01 C02 | inclusion invariant J (every held output key is justified by what is pressed)
     j1(*final(state)),
@@ -399,7 +399,7 @@ fn remove_mapping(state: &mut State, i: usize, removed_key: KeyCode) -> (res: Ve
       forall|j: int| 0 <= j < n0 ==> it.seq()[j] == n0 - 1 - j,
       i < active_mappings@.len(),
       active_mappings@ == old(state).active_mappings@,
-      //@ C01 C02 C09 | effect of the call on the list of keys considered pressed
+      //@ C01 C02 | effect of the call on the list of keys considered pressed
       input_pressed_keys@ == old(state).input_pressed_keys@,
       //@  | frame / auxiliary
       state.mapped_output_keys@.len() >= n0 - it.index@,
@@ -413,7 +413,7 @@ fn remove_mapping(state: &mut State, i: usize, removed_key: KeyCode) -> (res: Ve
       //@  | frame / auxiliary
       forall|j: int| 0 <= j < n0 - it.index@ ==> #[trigger] state.mapped_output_keys@[j] == old(state).mapped_output_keys@[j],
       forall|j: int| n0 - it.index@ <= j < state.mapped_output_keys@.len() ==> used_by_other(active_mappings@, i as int, #[trigger] state.mapped_output_keys@[j]) && old(state).mapped_output_keys@.contains(state.mapped_output_keys@[j]),
-      //@ C01 C02 C09 | effect of the call on the list of keys considered pressed
+      //@ C01 C02 | effect of the call on the list of keys considered pressed
       forall|x: KeyCode| #[trigger] pass_through_keys@.contains(x) ==> old(state).pass_through_keys@.contains(x) || (old(state).input_pressed_keys@.contains(x) && old(state).mapped_output_keys@.contains(x)),
       //@  | frame / auxiliary
       forall|x: KeyCode| #[trigger] pass_through_keys@.contains(x) ==> old(state).pass_through_keys@.contains(x) || !shadowed_by_other(active_mappings@, i as int, x),
@@ -580,7 +580,7 @@ fn release_action_mappings(state: &mut State) -> (events: Vec<Event>)
     apply(held(*old(state)), events@) == Some(held(*final(state))),
     //@  | frame / auxiliary
     final(state).active_mappings@ == old(state).active_mappings@,
-    //@ C01 C02 C09 | effect of the call on the list of keys considered pressed
+    //@ C01 C02 | effect of the call on the list of keys considered pressed
     final(state).input_pressed_keys@ == old(state).input_pressed_keys@,
     //@  | frame / auxiliary
     final(state).pass_through_keys@ == old(state).pass_through_keys@,
@@ -608,7 +608,7 @@ fn release_action_mappings(state: &mut State) -> (events: Vec<Event>)
       state.mapped_output_keys@ == old(state).mapped_output_keys@,
       state.pass_through_keys@ == old(state).pass_through_keys@,
       state.active_mappings@ == old(state).active_mappings@,
-      //@ C01 C02 C09 | effect of the call on the list of keys considered pressed
+      //@ C01 C02 | effect of the call on the list of keys considered pressed
       state.input_pressed_keys@ == old(state).input_pressed_keys@,
       //@  | frame / auxiliary
       state.mapped_absorbed_keys@ == old(state).mapped_absorbed_keys@,
@@ -643,7 +643,7 @@ fn release_action_mappings(state: &mut State) -> (events: Vec<Event>)
             state.mapped_output_keys@ == old(state).mapped_output_keys@,
             state.pass_through_keys@ == old(state).pass_through_keys@,
             state.active_mappings@ == old(state).active_mappings@,
-            //@ C01 C02 C09 | effect of the call on the list of keys considered pressed
+            //@ C01 C02 | effect of the call on the list of keys considered pressed
             state.input_pressed_keys@ == old(state).input_pressed_keys@,
             //@  | frame / auxiliary
             state.mapped_absorbed_keys@ == old(state).mapped_absorbed_keys@,
@@ -709,7 +709,7 @@ fn release_action_mappings(state: &mut State) -> (events: Vec<Event>)
         //@  | frame / auxiliary
         __i <= state.mapped_output_keys.len(),
         state.active_mappings@ == old(state).active_mappings@,
-        //@ C01 C02 C09 | effect of the call on the list of keys considered pressed
+        //@ C01 C02 | effect of the call on the list of keys considered pressed
         state.input_pressed_keys@ == old(state).input_pressed_keys@,
         //@  | frame / auxiliary
         state.mapped_absorbed_keys@ == old(state).mapped_absorbed_keys@,
@@ -741,7 +741,7 @@ fn release_action_mappings(state: &mut State) -> (events: Vec<Event>)
         //@  | frame / auxiliary
         __i <= state.pass_through_keys.len(),
         state.active_mappings@ == old(state).active_mappings@,
-        //@ C01 C02 C09 | effect of the call on the list of keys considered pressed
+        //@ C01 C02 | effect of the call on the list of keys considered pressed
         state.input_pressed_keys@ == old(state).input_pressed_keys@,
         //@  | frame / auxiliary
         state.mapped_absorbed_keys@ == old(state).mapped_absorbed_keys@,
@@ -825,10 +825,10 @@ pub proof fn lemma_append_contains<T>(a: Seq<T>, b: Seq<T>)
   }
 }
 
-//@ C14 | default: fn fails_when_released
+//@ C01 C02 C05 C14 | default: fn fails_when_released
 fn fails_when_released(trigger: &Vec<KeyCode>, key: &KeyCode) -> (r: bool)
   ensures
-    //@  | frame / auxiliary
+    //@ C01 C02 C05 | exact test: a mapping is taken out of effect by the release of a key iff that key is one of its trigger keys
     r == trigger@.contains(*key),
   { //@ | body
   for k in it: trigger
@@ -902,7 +902,7 @@ fn release_absorbed_keys(state: &mut State) -> (events: Vec<Event>)
     final(state).mapped_absorbed_keys@.len() == 0,
     final(state).absorbing_trigger is None,
     sub(final(state).mapped_output_keys@, old(state).mapped_output_keys@),
-    //@ C01 C02 C09 | effect of the call on the list of keys considered pressed
+    //@ C01 C02 | effect of the call on the list of keys considered pressed
     forall|x: KeyCode| #[trigger] final(state).pass_through_keys@.contains(x) ==> old(state).pass_through_keys@.contains(x) || old(state).input_pressed_keys@.contains(x),
     sub(final(state).input_pressed_keys@, old(state).input_pressed_keys@),
     //@ C01 C02 | inclusion invariant J (every held output key is justified by what is pressed)
@@ -913,7 +913,7 @@ fn release_absorbed_keys(state: &mut State) -> (events: Vec<Event>)
     j4(*old(state)) ==> j4(*final(state)),
     //@ C05 | a release lifts only the key itself or outputs owned by its mappings; pass-through keys are not outputs of mappings in effect
     j6(*old(state)) ==> j6(*final(state)),
-    //@ C01 C02 C09 | effect of the call on the list of keys considered pressed
+    //@ C01 C02 | effect of the call on the list of keys considered pressed
     forall|x: KeyCode| #[trigger] old(state).input_pressed_keys@.contains(x) && !old(state).mapped_absorbed_keys@.contains(x) ==> final(state).input_pressed_keys@.contains(x),
     //@ C01 C02 | inclusion invariant J (every held output key is justified by what is pressed)
     am_sub(final(state).active_mappings@, final(state).active_mappings@.len() as int, old(state).active_mappings@),
@@ -1059,7 +1059,7 @@ fn release_absorbed_keys(state: &mut State) -> (events: Vec<Event>)
     let ghost ipb = state.input_pressed_keys@;
     let mut __i: usize = 0; while __i < state.input_pressed_keys.len()
         invariant
-          //@ C01 C02 C09 | effect of the call on the list of keys considered pressed
+          //@ C01 C02 | effect of the call on the list of keys considered pressed
           __i <= state.input_pressed_keys@.len(),
           //@ C05 | every other passed-through key stays down
           rak_pt(*state, *old(state), done1),
@@ -1076,7 +1076,7 @@ fn release_absorbed_keys(state: &mut State) -> (events: Vec<Event>)
           j4(*old(state)) ==> j4(*state),
           //@ C05 | a release lifts only the key itself or outputs owned by its mappings; pass-through keys are not outputs of mappings in effect
           j6(*old(state)) ==> j6(*state),
-          //@ C01 C02 C09 | effect of the call on the list of keys considered pressed
+          //@ C01 C02 | effect of the call on the list of keys considered pressed
           forall|x: KeyCode| #[trigger] ipb.contains(x) && x != k ==> state.input_pressed_keys@.contains(x),
           forall|j: int| 0 <= j < __i ==> #[trigger] state.input_pressed_keys@[j] != k,
         decreases state.input_pressed_keys.len() - __i
@@ -1120,7 +1120,7 @@ fn release_all_action_keys(state: &mut State) -> (evs: Vec<Event>)
     //@ C07 | after a no-repeat mapping fires only modifiers are held
     forall|k: KeyCode| held(*final(state)).contains(k) ==> is_mod(k),
     forall|k: KeyCode| held(*old(state)).contains(k) && is_mod(k) ==> held(*final(state)).contains(k),
-    //@ C01 C02 C09 | effect of the call on the list of keys considered pressed
+    //@ C01 C02 | effect of the call on the list of keys considered pressed
     final(state).input_pressed_keys@ == old(state).input_pressed_keys@,
     //@  | frame / auxiliary
     final(state).active_mappings@ == old(state).active_mappings@,
@@ -1139,7 +1139,7 @@ fn release_all_action_keys(state: &mut State) -> (evs: Vec<Event>)
         //@  | frame / auxiliary
         __i <= state.pass_through_keys.len(),
         state.mapped_output_keys@ == old(state).mapped_output_keys@,
-        //@ C01 C02 C09 | effect of the call on the list of keys considered pressed
+        //@ C01 C02 | effect of the call on the list of keys considered pressed
         state.input_pressed_keys@ == old(state).input_pressed_keys@,
         //@  | frame / auxiliary
         state.active_mappings@ == old(state).active_mappings@, state.mapped_absorbed_keys@ == old(state).mapped_absorbed_keys@, state.absorbing_trigger == old(state).absorbing_trigger,
@@ -1165,6 +1165,7 @@ fn release_all_action_keys(state: &mut State) -> (evs: Vec<Event>)
     }
   } }; if __keep { __i += 1; } else { 
       state.pass_through_keys.remove(__i); 
+      //@ C19 | bookkeeping equals the fold of the emitted events; no redundant press or release
       proof {
         let x = pt0[__i as int];
         assert(to_release@ =~= tr0.push(x));
@@ -1189,7 +1190,7 @@ fn release_all_action_keys(state: &mut State) -> (evs: Vec<Event>)
         //@  | frame / auxiliary
         __i <= state.mapped_output_keys.len(),
         state.pass_through_keys@ == pt1,
-        //@ C01 C02 C09 | effect of the call on the list of keys considered pressed
+        //@ C01 C02 | effect of the call on the list of keys considered pressed
         state.input_pressed_keys@ == old(state).input_pressed_keys@,
         //@  | frame / auxiliary
         state.active_mappings@ == old(state).active_mappings@, state.mapped_absorbed_keys@ == old(state).mapped_absorbed_keys@, state.absorbing_trigger == old(state).absorbing_trigger,
@@ -1221,6 +1222,7 @@ fn release_all_action_keys(state: &mut State) -> (evs: Vec<Event>)
     }
   } }; if __keep { __i += 1; } else { 
       state.mapped_output_keys.remove(__i); 
+      //@ C19 | bookkeeping equals the fold of the emitted events; no redundant press or release
       proof {
         let x = mo0[__i as int];
         assert(to_release@ =~= tr0.push(x));
@@ -1233,6 +1235,7 @@ fn release_all_action_keys(state: &mut State) -> (evs: Vec<Event>)
       }
   } }
   
+  //@ C19 | bookkeeping equals the fold of the emitted events; no redundant press or release
   proof {
     let h0 = held(*old(state));
     assert(h0 =~= pt_old.union(mo_old));
@@ -1624,7 +1627,7 @@ fn add_new_mapping(state: &mut State, new_key: &KeyCode, m: &Mapping) -> (res: S
     c08_anm(*old(state), *final(state), *new_key, *m),
     //@ C09 | repeat request
     repeat_matches(m.repeat, res.repeat),
-    //@ C01 C02 C09 | effect of the call on the list of keys considered pressed
+    //@ C01 C02 | effect of the call on the list of keys considered pressed
     sub(final(state).input_pressed_keys@, old(state).input_pressed_keys@),
     forall|x: KeyCode| #[trigger] old(state).input_pressed_keys@.contains(x) && (!old(state).mapped_absorbed_keys@.contains(x) || old(state).absorbing_trigger == Some(*new_key)) ==> final(state).input_pressed_keys@.contains(x),
     //@ C19 | bookkeeping equals the fold of the emitted events; no redundant press or release
@@ -1796,7 +1799,7 @@ fn add_new_mapping(state: &mut State, new_key: &KeyCode, m: &Mapping) -> (res: S
               state.active_mappings@ == am0, state.mapped_absorbed_keys@ == ab0, state.absorbing_trigger == at_s1,
               //@ C19 | bookkeeping equals the fold of the emitted events; no redundant press or release
               state.pass_through_keys@.no_duplicates(),
-              //@ C01 C02 C09 | effect of the call on the list of keys considered pressed
+              //@ C01 C02 | effect of the call on the list of keys considered pressed
               state.input_pressed_keys@ == ip_s,
               //@  | frame / auxiliary
               state.pass_through_keys@.to_set().subset_of(pt0.to_set()),
@@ -2369,7 +2372,7 @@ fn newly_release(mapper: &mut Mapper, k: KeyCode) -> (res: StepResult)
     final(mapper).layout == old(mapper).layout,
     //@ C05 | a release lifts only the key itself or outputs owned by its mappings; pass-through keys are not outputs of mappings in effect
     c05_rel(res.events@, old(mapper).state.active_mappings@, final(mapper).state.active_mappings@, k),
-    //@ C01 C02 C09 | effect of the call on the list of keys considered pressed
+    //@ C01 C02 | effect of the call on the list of keys considered pressed
     sub(final(mapper).state.input_pressed_keys@, old(mapper).state.input_pressed_keys@),
     //@ C19 | bookkeeping equals the fold of the emitted events; no redundant press or release
     apply(held(old(mapper).state), res.events@) == Some(held(final(mapper).state)),
@@ -2380,7 +2383,7 @@ fn newly_release(mapper: &mut Mapper, k: KeyCode) -> (res: StepResult)
     j3b(old(mapper).layout, old(mapper).state) && j5(old(mapper).layout, old(mapper).state) ==> j3b(final(mapper).layout, final(mapper).state) && j5(final(mapper).layout, final(mapper).state),
     //@ C09 | repeat request
     res.repeat is Disabled,
-    //@ C01 C02 C09 | effect of the call on the list of keys considered pressed
+    //@ C01 C02 | effect of the call on the list of keys considered pressed
     !final(mapper).state.input_pressed_keys@.contains(k),
     forall|x: KeyCode| #[trigger] old(mapper).state.input_pressed_keys@.contains(x) && x != k ==> final(mapper).state.input_pressed_keys@.contains(x),
   { //@ | body
@@ -2409,7 +2412,7 @@ fn newly_release(mapper: &mut Mapper, k: KeyCode) -> (res: StepResult)
       j3(*state),
       //@ C02 | (d) trigger keys of mappings in effect are consumed (not passed through)
       j4(*state),
-      //@ C01 C02 C09 | effect of the call on the list of keys considered pressed
+      //@ C01 C02 | effect of the call on the list of keys considered pressed
       state.input_pressed_keys@ == old(mapper).state.input_pressed_keys@,
       //@ C01 C02 | inclusion invariant J (every held output key is justified by what is pressed)
       none_needs(state.active_mappings@, i + 1, k),
@@ -2474,7 +2477,7 @@ fn newly_release(mapper: &mut Mapper, k: KeyCode) -> (res: StepResult)
       j3(*state),
       //@ C02 | (d) trigger keys of mappings in effect are consumed (not passed through)
       j4(*state),
-      //@ C01 C02 C09 | effect of the call on the list of keys considered pressed
+      //@ C01 C02 | effect of the call on the list of keys considered pressed
       state.input_pressed_keys@ == old(mapper).state.input_pressed_keys@,
       //@ C01 C02 | inclusion invariant J (every held output key is justified by what is pressed)
       none_needs(state.active_mappings@, 0, k),
@@ -2510,7 +2513,7 @@ fn newly_release(mapper: &mut Mapper, k: KeyCode) -> (res: StepResult)
   let ghost ipb = state.input_pressed_keys@;
   let mut __i: usize = 0; while __i < state.input_pressed_keys.len()
     invariant
-      //@ C01 C02 C09 | effect of the call on the list of keys considered pressed
+      //@ C01 C02 | effect of the call on the list of keys considered pressed
       __i <= state.input_pressed_keys@.len(),
       //@ C19 | bookkeeping equals the fold of the emitted events; no redundant press or release
       wf(*state),
@@ -2523,7 +2526,7 @@ fn newly_release(mapper: &mut Mapper, k: KeyCode) -> (res: StepResult)
       j1(*state),
       //@ C02 | (d) trigger keys of mappings in effect are consumed (not passed through)
       j4(*state),
-      //@ C01 C02 C09 | effect of the call on the list of keys considered pressed
+      //@ C01 C02 | effect of the call on the list of keys considered pressed
       ipb == old(mapper).state.input_pressed_keys@,
       sub(state.input_pressed_keys@, ipb),
       //@  | frame / auxiliary
@@ -2538,7 +2541,7 @@ fn newly_release(mapper: &mut Mapper, k: KeyCode) -> (res: StepResult)
       sub(state.pass_through_keys@, ipb),
       //@ C01 C02 | inclusion invariant J (every held output key is justified by what is pressed)
       from_in(state.active_mappings@, state.active_mappings@.len() as int, ipb),
-      //@ C01 C02 C09 | effect of the call on the list of keys considered pressed
+      //@ C01 C02 | effect of the call on the list of keys considered pressed
       forall|x: KeyCode| #[trigger] ipb.contains(x) && x != k ==> state.input_pressed_keys@.contains(x),
       forall|j: int| 0 <= j < __i ==> #[trigger] state.input_pressed_keys@[j] != k,
     decreases state.input_pressed_keys@.len() - __i
@@ -2580,7 +2583,7 @@ impl State {
       j6(r),
       //@  | frame / auxiliary
       held(r) == Set::<KeyCode>::empty(),
-      //@ C01 C02 C09 | effect of the call on the list of keys considered pressed
+      //@ C01 C02 | effect of the call on the list of keys considered pressed
       r.input_pressed_keys@.len() == 0,
       //@  | frame / auxiliary
       r.active_mappings@.len() == 0,
@@ -2911,7 +2914,7 @@ fn newly_press(mapper: &mut Mapper, k: KeyCode) -> (res: StepResult)
     j4(old(mapper).state),
     //@ C05 | a release lifts only the key itself or outputs owned by its mappings; pass-through keys are not outputs of mappings in effect
     j6(old(mapper).state),
-    //@ C01 C02 C09 | effect of the call on the list of keys considered pressed
+    //@ C01 C02 | effect of the call on the list of keys considered pressed
     !old(mapper).state.input_pressed_keys@.contains(k),
     //@ C01 C02 | inclusion invariant J (every held output key is justified by what is pressed)
     nonempty_from(old(mapper).state.active_mappings@),
@@ -2932,7 +2935,7 @@ fn newly_press(mapper: &mut Mapper, k: KeyCode) -> (res: StepResult)
     nonempty_from(final(mapper).state.active_mappings@),
     //@  | frame / auxiliary
     final(mapper).layout == old(mapper).layout,
-    //@ C01 C02 C09 | effect of the call on the list of keys considered pressed
+    //@ C01 C02 | effect of the call on the list of keys considered pressed
     forall|x: KeyCode| #[trigger] final(mapper).state.input_pressed_keys@.contains(x) ==> old(mapper).state.input_pressed_keys@.contains(x) || x == k,
     //@ C03 C05 C08 | a key that is considered pressed and is not absorbed stays considered pressed
     ip_kept(final(mapper).state, old(mapper).state),
@@ -2949,7 +2952,7 @@ fn newly_press(mapper: &mut Mapper, k: KeyCode) -> (res: StepResult)
     forall|i: int| #![trigger is_fired(group(old(mapper).layout, k), old(mapper).state, k, i)] is_fired(group(old(mapper).layout, k), old(mapper).state, k, i) ==> (c04_cond(old(mapper).state, group(old(mapper).layout, k)[i]) ==> c04_anm(old(mapper).state, group(old(mapper).layout, k)[i], res.events@)),
     //@ C19 | bookkeeping equals the fold of the emitted events; no redundant press or release
     apply(held(old(mapper).state), res.events@) == Some(held(final(mapper).state)),
-    //@ C01 C02 C09 | effect of the call on the list of keys considered pressed
+    //@ C01 C02 | effect of the call on the list of keys considered pressed
     final(mapper).state.input_pressed_keys@.contains(k),
     //@ C09 | repeat request
     !(res.repeat is NoChange),
@@ -2986,7 +2989,7 @@ fn newly_press(mapper: &mut Mapper, k: KeyCode) -> (res: StepResult)
       state.pass_through_keys@ == old(mapper).state.pass_through_keys@,
       state.mapped_output_keys@ == old(mapper).state.mapped_output_keys@,
       state.active_mappings@ == old(mapper).state.active_mappings@,
-      //@ C01 C02 C09 | effect of the call on the list of keys considered pressed
+      //@ C01 C02 | effect of the call on the list of keys considered pressed
       state.input_pressed_keys@ == old(mapper).state.input_pressed_keys@,
       //@  | frame / auxiliary
       state.absorbing_trigger == old(mapper).state.absorbing_trigger,
@@ -3069,7 +3072,7 @@ fn newly_press(mapper: &mut Mapper, k: KeyCode) -> (res: StepResult)
         !any_hit ==> j3(*state),
         any_hit ==> from_in(state.active_mappings@, state.active_mappings@.len() - 1, state.input_pressed_keys@) && state.active_mappings@.len() >= 1
                     && (forall|f: KeyCode| #[trigger] state.active_mappings@.last().from@.contains(f) ==> f == k || state.input_pressed_keys@.contains(f)),
-        //@ C01 C02 C09 | effect of the call on the list of keys considered pressed
+        //@ C01 C02 | effect of the call on the list of keys considered pressed
         forall|x: KeyCode| #[trigger] state.input_pressed_keys@.contains(x) ==> old(mapper).state.input_pressed_keys@.contains(x),
         //@ C09 | repeat request
         !any_hit ==> (state.pass_through_keys@ == old(mapper).state.pass_through_keys@ && state.mapped_output_keys@ == old(mapper).state.mapped_output_keys@ && state.active_mappings@ == old(mapper).state.active_mappings@ && state.input_pressed_keys@ == old(mapper).state.input_pressed_keys@ && state.mapped_absorbed_keys@ == ab1 && state.absorbing_trigger == at1 && res.events@.len() == 0 && res.repeat is Disabled),
@@ -3152,6 +3155,8 @@ fn newly_press(mapper: &mut Mapper, k: KeyCode) -> (res: StepResult)
         //@  | frame / auxiliary
         it.seq().len() == state.active_mappings@.len(),
         forall|j: int| 0 <= j < state.active_mappings@.len() ==> *it.seq()[j] == state.active_mappings@[j],
+        //@ C01 C02 | the key that goes down is not considered pressed yet, and every trigger key of a mapping in effect is
+        j3(*state), !state.input_pressed_keys@.contains(k),
       ensures
         //@ C01 C02 | inclusion invariant J (every held output key is justified by what is pressed)
         !any_hit ==> no_mention(state.active_mappings@, k),
@@ -3159,6 +3164,9 @@ fn newly_press(mapper: &mut Mapper, k: KeyCode) -> (res: StepResult)
       { //@ | body
       proof { reveal(no_mention_upto); assert(*m == state.active_mappings@[it.index@ as int]); }
       if m.from.contains(&k) {
+        //@ C01 C02 | this branch is dead: a trigger key of a mapping in effect is considered pressed, the key that goes down is not
+        proof { reveal(from_in); assert(sub(state.active_mappings@[it.index@ as int].from@, state.input_pressed_keys@)); assert(false); }
+        //@  | frame / auxiliary
         proof { lemma_mentioned_at(state.active_mappings@, it.index@ as int, k); }
         any_hit = true;
         break;
@@ -3583,7 +3591,7 @@ impl Mapper {
       (res.repeat is NoChange) ==> res.events@.len() == 0 && *final(self) == *old(self),
       //@ C11 C09 | repeat parameters are non-negative (the event loop turns them into Durations)
       rrepeat_ok(res.repeat),
-      //@ C01 C02 C09 | effect of the call on the list of keys considered pressed
+      //@ C01 C02 | effect of the call on the list of keys considered pressed
       match input { Event::Pressed(k) => forall|x: KeyCode| #[trigger] final(self).pressed_view().contains(x) ==> old(self).pressed_view().contains(x) || x == k,
                     Event::Released(k) => !final(self).pressed_view().contains(k) && forall|x: KeyCode| #[trigger] final(self).pressed_view().contains(x) ==> old(self).pressed_view().contains(x) },
       //@ C02 C07 | release paths emit only releases
@@ -3689,7 +3697,7 @@ impl Mapper {
         it.seq() == tr,
         //@ C02 C07 | release paths emit only releases
         all_released(events@),
-        //@ C01 C02 C09 | effect of the call on the list of keys considered pressed
+        //@ C01 C02 | effect of the call on the list of keys considered pressed
         forall|x: KeyCode| #[trigger] self.state.input_pressed_keys@.contains(x) ==> tr.contains(x) && !tr.take(it.index@ as int).contains(x),
       { //@ | body
       proof { assert(tr.take(it.index@ as int + 1) =~= tr.take(it.index@ as int).push(k)); lemma_push_contains(tr.take(it.index@ as int), k); }
